@@ -3,7 +3,7 @@ package main
 func init() {
 	register(PropSpec{ID: "C20", Harnesses: []HarnessSpec{
 		{Name: "lifecycle", Pkg: "snow", Files: []string{"snow/c20_lifecycle.go"}, Entry: "VerifC20", Sched: true, Preempt: [2]int{0, 1},
-			Reach:       []string{"accepted", "rejected", "built"},
+			Reach:       []string{"accepted", "rejected", "built", "context-mismatch"},
 			Stubs:       []string{"the inner chain is a harness Chain (verification result = per-block validity bit, it records every VerifyBlock/AcceptBlock call), the chain index a map", "the VM is assembled as VM.Initialize does, without config parsing, p2p network and health checkers; metrics/tracer/logger opaque"},
 			Assumptions: []string{"the consensus engine obeys the snowman contract: Verify only on a block whose parent is processing or the last accepted block, Accept only on a processing child of the last accepted block, followed by Reject of every conflicting processing block (parents first); engine calls are serial (the engine holds its own lock)", "goroutines switch only at synchronisation operations"},
 			Outside:     []string{"more than engineCalls calls, block trees other than G-(A1-(A2[,C2]), B1-B2) plus one locally built block, more than one invalid block", "dynamic state sync (C21)", "schedules beyond the preemption bound"}},
